@@ -404,12 +404,75 @@ class Program:
         self.digest = h.hexdigest()
         self._inline_explaining_constants()
         self._inline_precompiled_structs()
+        self._positional_own_calls()
         from .inline import inline_new_helpers
         self.read_through = inline_new_helpers({name: mod.tree for name, mod in self.modules.items()})
         for mod in self.modules.values():
             set_parents(mod.tree)
         for mod in self.modules.values():
             self._index_module(mod)
+
+    def _positional_own_calls(self):
+        """Normal form: a call of one of the package's own functions passes its leading arguments by position. `self.m(x=a, y=b)` / `f(x=a)` / `obj.m(x=a)` become
+        `self.m(a, b)` etc. when the callee is known (a method of the enclosing class for self./cls. calls; otherwise a function or method name that the whole package
+        defines exactly once), has no *args and no positional-only parameters, and the keywords name its next parameters in order (a keyword is moved only if every
+        parameter before it is supplied). Keywords that cannot be moved stay keywords."""
+        def plain(fn, is_method):
+            a = fn.args
+            if a.vararg or a.posonlyargs:
+                return None
+            if any(not (isinstance(d, ast.Name) and d.id in ("staticmethod", "classmethod")) for d in fn.decorator_list):
+                return None
+            params = [x.arg for x in a.args]
+            static = any(isinstance(d, ast.Name) and d.id == "staticmethod" for d in fn.decorator_list)
+            if is_method and not static:
+                if not params:
+                    return None
+                params = params[1:]
+            return params
+        by_name = {}
+        by_class = {}
+        for mod in self.modules.values():
+            for st in mod.tree.body:
+                if isinstance(st, ast.FunctionDef):
+                    by_name.setdefault(st.name, []).append(plain(st, False))
+            for n in ast.walk(mod.tree):
+                if isinstance(n, ast.ClassDef):
+                    for m in n.body:
+                        if isinstance(m, ast.FunctionDef):
+                            by_name.setdefault(m.name, []).append(plain(m, True))
+                            by_class.setdefault(id(n), {})[m.name] = plain(m, True)
+                elif isinstance(n, (ast.FunctionDef, ast.Lambda)):
+                    for inner in ast.walk(n):
+                        if isinstance(inner, ast.FunctionDef) and inner is not n:
+                            by_name.setdefault(inner.name, []).append(None)      # a nested function of that name: the name alone does not identify a callee
+
+        def fix(call, params):
+            if params is None or any(isinstance(x, ast.Starred) for x in call.args) or any(k.arg is None for k in call.keywords):
+                return
+            pos = len(call.args)
+            kws = {k.arg: k for k in call.keywords}
+            while pos < len(params) and params[pos] in kws:
+                k = kws.pop(params[pos])
+                call.args.append(k.value)
+                call.keywords.remove(k)
+                pos += 1
+
+        def visit(node, cls):
+            for ch in ast.iter_child_nodes(node):
+                visit(ch, ch if isinstance(ch, ast.ClassDef) else cls)
+            if not isinstance(node, ast.Call) or not node.keywords:
+                return
+            f = node.func
+            name = f.attr if isinstance(f, ast.Attribute) else f.id if isinstance(f, ast.Name) else None
+            if name is None or (name.startswith("__") and name.endswith("__")):
+                return
+            if isinstance(f, ast.Attribute) and isinstance(f.value, ast.Name) and f.value.id in ("self", "cls") and cls is not None and name in by_class.get(id(cls), {}):
+                fix(node, by_class[id(cls)][name])
+            elif len(by_name.get(name, [])) == 1:
+                fix(node, by_name[name][0])
+        for mod in self.modules.values():
+            visit(mod.tree, None)
 
     def _inline_precompiled_structs(self):
         """Normal form: a module-level `S = struct.Struct(<format literal>)` bound once is the format with the struct functions applied to it:
